@@ -18,8 +18,10 @@ Vec == [k \in 1..(CDim(sh) - (IF sh.rat THEN 1 ELSE 0)) |-> RI(k)]
 View2D == out.op = "init" /\ PDim(sh) = 2 /\ out' = [op |-> "ctrlpts2d", grid |-> Ctrlpts2D(sh),
             flipu |-> FlipCtrlptsU(FlipCtrlpts(sh.P, sh.size[1], sh.size[2]), sh.size[1], sh.size[2]),
             urow |-> FlipCtrlpts(sh.P, sh.size[1], sh.size[2])] /\ UNCHANGED sh
-ExtractS == out.op = "init" /\ PDim(sh) = 2 /\ out' = [op |-> "extract_curves", ex |-> ExtractCurves(sh)] /\ UNCHANGED sh
-ExtractV == out.op = "init" /\ PDim(sh) = 3 /\ out' = [op |-> "extract_surfaces", ex |-> ExtractSurfaces(sh)] /\ UNCHANGED sh
+ExtractS == out.op = "init" /\ PDim(sh) = 2 /\ out' = [op |-> "extract_curves", ex |-> ExtractCurves(sh),
+            ex2 |-> ExtractCurves(Flip(sh))] /\ UNCHANGED sh        \* extracted again after an in-place flip
+ExtractV == out.op = "init" /\ PDim(sh) = 3 /\ out' = [op |-> "extract_surfaces", ex |-> ExtractSurfaces(sh),
+            vec |-> Vec, ex2 |-> ExtractSurfaces(Translate(sh, Vec))] /\ UNCHANGED sh   \* extracted again after an in-place translation
 TransposeOp == out.op = "init" /\ PDim(sh) = 2 /\ out' = [op |-> "transpose", res |-> Transpose(sh)] /\ UNCHANGED sh
 FlipOp == out.op = "init" /\ PDim(sh) = 2 /\ out' = [op |-> "flip", res |-> Flip(sh)] /\ UNCHANGED sh
 SweepOp == out.op = "init" /\ PDim(sh) <= 2 /\ out' = [op |-> "sweep", vec |-> Vec, res |-> Sweep(sh, Vec)] /\ UNCHANGED sh
